@@ -330,6 +330,8 @@ def mon_c11(ex, info, col):
                         cn = info.task_comp.get(high)
                         if cn is None or len(info.comp_tasks[cn]) != 1:
                             continue
+                        if info.comp_parents.get(cn) or (sa["components"][cn][1] != su["components"][cn][1] and su["components"][cn][1] is not None):
+                            continue  # (a part may be carried along with its assembly later in the same allocation: where it is at the end of the step says nothing about its own turn)
                         wpn = sa["components"][cn][1]
                         if wpn is None:
                             continue  # (a single-task component is placed at its own task's turn, before facilities are searched)
@@ -459,6 +461,7 @@ def run(tier, seed):
     col.merge(stepcheck.explore(bi, [mon_c11], 0, 0, seed=seed))
     col.merge(stepcheck.explore([(sp, dict(o, rule=r)) for sp, o in stepcheck.edited_items() for r in ("TSLACK", "SPT", "LPT")], [mon_c11], 0, 0, seed=seed))
     col.merge(stepcheck.explore(F.scale_items(("TSLACK", "SPT", "LPT", "FIFO", "LRPT")), [mon_c11], 0, 0, seed=seed))  # medium-sized models
+    col.merge(stepcheck.explore(F.extra_items(("TSLACK", "SPT", "LPT", "FIFO", "LRPT"), calendars=False), [mon_c11], 0, 0, seed=seed))  # other ways of building the object graph; continuations under a revised calendar
     ri = rule_items(tier)
     col.merge(stepcheck.explore(ri, [mon_rules_accepted, mon_c11], 3, 1, seed=seed))
     meta = {
